@@ -59,7 +59,7 @@ def build(args):
         rng.shuffle(order)
         order = [k for k in order]
     obs = {"raised": "-", "fs": [], "used": [], "nsub": 0, "float_ok": True, "visible_ok": True, "orders_same": True,
-           "meta_kept": True, "unchanged": True}
+           "meta_kept": True, "unchanged": True, "reuse_ok": True}
     try:
         with time_limit(5):
             dc = cio.build_chain(cz, c, order=order, rng=rng)
@@ -89,6 +89,16 @@ def build(args):
             obs["float_ok"] = abs(ff - float(top.bf)) <= 1e-12 * abs(float(top.bf))
             if not Sc:
                 obs["visible_ok"] = dc.visible_bf == top.bf
+            # the same object once more: flattened completely, asked for its visible bf, flattened partially again -
+            # each answer as a fresh object gives it
+            ref = cio.build_chain(cz, c, order=order).flatten()
+            rt = ref.decays[ref.mother]
+            again = dc.flatten()
+            at = again.decays[again.mother]
+            third = dc.flatten(stable_particles=stable_arg)
+            tt = third.decays[third.mother]
+            obs["reuse_ok"] = (at.bf == rt.bf and dict(at.daughters) == dict(rt.daughters) and dc.visible_bf == rt.bf
+                               and tt.bf == top.bf and dict(tt.daughters) == dict(top.daughters))
     except (Exception, CodeHang) as e:  # noqa: BLE001
         obs["raised"] = repr(e)[:200]
     return {"prop": PROP, "cid": cid, "c": c, "S": list(S), "keys": list(keys), "obs": obs,
